@@ -45,7 +45,9 @@ Inductive action :=
 | ARead (i : Z)
 | AWrite (i v : Z)
 | AAccessErr         (* a[idx] / a[idx] = v for which NumPy raises: enter, raise, leave *)
-| AResize (n : Z).   (* a completed append / truncate_array: the length becomes n (Array._update_len) *)
+| AResize (n : Z)    (* a completed append / truncate_array: the length becomes n (Array._update_len) *)
+| AOpenFail.         (* an access while the data file cannot be opened (it raises before anyone is counted);
+                        with a map already open the access goes through that map and succeeds *)
 
 Inductive outcome :=
 | ONothing
@@ -159,6 +161,12 @@ Definition sched_step (s : sched) (a : action) : outcome * sched :=
       if mem_nat m (sc_open s1) then (ONothing, release (set_data s1 (cset (sc_data s1) i v))) else (OCrash, s1)
   | AAccessErr =>
       let '(m, s1) := acquire s in (ORaise, release s1)
+  | AOpenFail =>
+      match sc_cache s with
+      | None => (ORaise, s)
+      | Some _ => let '(m, s1) := acquire s in
+                  if mem_nat m (sc_open s1) then (OValue (cget (sc_data s1) 0), release s1) else (OCrash, s1)
+      end
   | AResize n =>
       (* _update_len: when the array is open its memory map is renewed for the new length; the old
          map is not closed, it lives on while a generator still reads from it *)
